@@ -8,6 +8,8 @@ COMMON_TRUSTED = [
 PLAN = {
     "C14": {
         "sidecars": ["contracts.time_c14"],
+        "extra": ["contracts.lib_lemmas:divmod1_lemma"],
+        "timeout_ms": {"quick": 120000, "thorough": 600000},
         "level": "proof",
         "trusted": COMMON_TRUSTED,
         "explanation": "contracts on every Time method; comparisons/structure in model R (exact rationals), "
